@@ -375,6 +375,20 @@ def check_slots(ctx):
         ctx.holds('R13-hooks', fi, 'get_sync_before_pack_methods / get_sync_after_unpack_methods return their own lists', 'drivers see the hooks of their phase', fi.node.lineno, clause='c')
 
 
+def _indexes_by_enumerate(r, seq):
+    """some comprehension in ``r`` formats the first element of ``enumerate(seq)`` for every entry:
+    the same indices as range(len(seq))"""
+    for n in ast.walk(r):
+        if isinstance(n, (ast.GeneratorExp, ast.ListComp)) and len(n.generators) == 1 and not n.generators[0].ifs:
+            g = n.generators[0]
+            if isinstance(g.iter, ast.Call) and isinstance(g.iter.func, ast.Name) and g.iter.func.id == 'enumerate' and len(g.iter.args) == 1 and not g.iter.keywords \
+                    and canon(g.iter.args[0]) == seq and isinstance(g.target, ast.Tuple) and len(g.target.elts) == 2 and isinstance(g.target.elts[0], ast.Name):
+                i = g.target.elts[0].id
+                if isinstance(n.elt, ast.BinOp) and isinstance(n.elt.op, ast.Mod) and canon(n.elt.right) in (i, '(%s,)' % i):
+                    return True
+    return False
+
+
 def check_generated_sync(ctx):
     repo = ctx.repo
     cg = repo.cls('CodeGenerator')
@@ -415,7 +429,7 @@ def check_generated_sync(ctx):
                     for x in bp.effects:
                         if x.kind == 'call' and isinstance(x.call.func, ast.Attribute) and x.call.func.attr == 'append':
                             txt += ' ' + ' '.join(canon(a) for a in x.call.args)
-        ok = ('pkt.%s()' % want_getter) in txt and other not in txt and "sync_methods[%i](pkt)" in txt and ('range(len(self.pkt_class.%s()))' % want_getter) in txt
+        ok = ('pkt.%s()' % want_getter) in txt and other not in txt and "sync_methods[%i](pkt)" in txt and (('range(len(self.pkt_class.%s()))' % want_getter) in txt or _indexes_by_enumerate(r, 'self.pkt_class.%s()' % want_getter))
         if ok:
             ctx.holds('R13-hooks', fi, '%s: sync_methods = pkt.%s(); sync_methods[i](pkt) for every i' % (side, want_getter), 'every hook of the phase is called with the packet', fi.node.lineno, clause='c')
         else:
